@@ -259,8 +259,9 @@ func (g *Gen) Ext() Step {
 		case 4:
 			return Step{Op: "ixn.mut.delete", Name: g.pick(append([]string{"*"}, g.U.Services...)), Svc: g.pick(append([]string{"*"}, g.U.Services...))}
 		default:
-			// switch the intention format (migration marker)
-			return Step{Op: "sysmeta.set", Key: "intention-format", Val: "config-entry"}
+			// (the one-way intention-format marker is only ever set in a plan's prelude: servers
+			// set it together with the migration of the legacy table, never in mid-history)
+			return Step{Op: "ixn.mut.upsert", Name: g.pick(g.U.Services), Svc: g.pick(g.U.Services), Text: g.pick([]string{"allow", "deny"})}
 		}
 	case 3: // CA
 		switch simkit.Weighted(r, []int{20, 25, 25, 10, 5, 10, 5}) {
@@ -331,7 +332,8 @@ func (g *Gen) Ext() Step {
 		if simkit.Chance(r, 70) {
 			return Step{Op: "sysmeta.set", Key: g.pick([]string{"k1", "k2", "virtual-ips"}), Val: g.pick([]string{"true", "x"})}
 		}
-		return Step{Op: "sysmeta.delete", Key: g.pick([]string{"k1", "k2", "virtual-ips", "intention-format"})}
+		// the intention-format marker is a one-way migration flag: servers set it, nothing deletes it
+		return Step{Op: "sysmeta.delete", Key: g.pick([]string{"k1", "k2", "virtual-ips"})}
 	case 8:
 		if simkit.Chance(r, 70) {
 			s := Step{Op: "fedstate.set", Name: g.pick([]string{"dc1", "dc2"}), N: int64(r.IntN(50))}
